@@ -154,6 +154,36 @@ def run(ctx):
             ctx.fail("tree.contract raised %r" % (e,), dict(rec))
             continue
         if opts:
+            # the axis orders chosen by sort_contraction_indices must be admissible (verified
+            # checker, evaluated inside Coq) and the model's program with those orders must
+            # reproduce the implementation's result
+            try:
+                if small and len(inputs) >= 2:
+                    tbl = []
+                    for p_, l_, r_ in tree.traverse():
+                        if len(p_) != tree.N:
+                            tbl.append((gen.nested_leaves(gen.tree_nested(tree, p_)), sym_list(tree.get_inds(p_))))
+                    i = rng.randrange(tree.nslices) if tree.sliced_inds else 0
+                    key = tree.slice_key(i) if tree.sliced_inds else {}
+                    gots = tree.contract_slice(arrays, i, prefer_einsum=True) if tree.sliced_inds else \
+                        tree.contract_core(arrays, prefer_einsum=True)
+                    gots = np.asarray(gots)
+                    out_ix = [ix for ix in output if ix not in tree.sliced_inds]
+                    pts = "[" + "; ".join("mk_pt %s %s" % (coq(list(a.shape)), coq([Z(int(v)) for v in a.reshape(-1)]))
+                                           for a in arrays) + "]"
+                    e0 = "(env_of (fun _ => 0) %s %s)" % (coq([gen.IDX[k] for k in key]), coq([int(v) for v in key.values()]))
+                    lhsg = ("(admissible_b {n} {s} (io_tbl {tb}) {tl_} && admissible_b {n} {s} (io_tbl {tb}) {tr_}, flatten_pt {sh} (run_root_g {n} {s} (arr_of {a}) {e} "
+                            "(io_tbl {tb}) {t}))").format(n=netl, s=sll, tb=coq(tbl), t=tl, a=pts, e=e0,
+                                                        tl_=tree_lit(nested[0]), tr_=tree_lit(nested[1]),
+                                                        sh=coq([size_dict[ix] for ix in out_ix]))
+                    rhsg = coq((True, [Z(int(v)) for v in gots.reshape(-1)]))
+                    ecases.append(("sorted%d" % ci, lhsg, rhsg))
+                    erecords.append(dict(rec, slice=i, arrays=[a.tolist() for a in arrays], interpreter="run_root_g",
+                                         axis_orders=tbl))
+                    ctx.count("sorted_exec")
+            except Exception as e:
+                ctx.fail("contract after sort_contraction_indices raised %r" % (e,), dict(rec))
+                continue
             # the static model below describes the default index order
             tree.reset_contraction_indices()
 
